@@ -400,7 +400,17 @@ func buildStandalone(c *Case) *built {
 		b.h = middleware.SwaggerUIOAuth2Callback(middleware.SwaggerUIOpts{BasePath: c.BasePath, Path: c.Path, SpecURL: c.SpecURL, Title: c.Title, Template: tpl,
 			SwaggerURL: c.AssetURL, OAuthCallbackURL: c.CallbackURL}, next)
 	}
+	decoys()
 	return b
+}
+
+// decoys constructs other UI middlewares right after the one under test and before it serves anything:
+// a page is rendered once at construction and must stay that middleware's own.
+func decoys() {
+	_ = middleware.Redoc(middleware.RedocOpts{BasePath: "/decoy", Title: "DECOY-REDOC-TITLE", SpecURL: "/decoy/redoc.json"}, nil)
+	_ = middleware.SwaggerUI(middleware.SwaggerUIOpts{BasePath: "/decoy", Title: "DECOY-SWAGGERUI-TITLE", SpecURL: "/decoy/swaggerui.json"}, nil)
+	_ = middleware.RapiDoc(middleware.RapiDocOpts{BasePath: "/decoy", Title: "DECOY-RAPIDOC-TITLE", SpecURL: "/decoy/rapidoc.json"}, nil)
+	_ = middleware.SwaggerUIOAuth2Callback(middleware.SwaggerUIOpts{BasePath: "/decoy", Title: "DECOY-OAUTH2-TITLE"}, nil)
 }
 
 func renderAPI(c *Case) []byte {
@@ -467,6 +477,7 @@ func buildAPI(c *Case) (*built, error) {
 	case "api-rapidoc":
 		b.h = ctx.APIHandlerRapiDoc(nil, opts...)
 	}
+	decoys()
 	return b, nil
 }
 
